@@ -6,6 +6,8 @@ mod proc;
 mod c12;
 mod c20;
 mod c06;
+mod tiny;
+mod c14;
 
 fn main() {
     let argv: Vec<String> = std::env::args().collect();
@@ -19,6 +21,8 @@ fn main() {
         "c12" => c12::run(&a),
         "c20" => c20::run(&a),
         "c06" => c06::run(&a),
+        "c14mut" => c14::run_mut(&a),
+        "c14files" => c14::run_files(&a),
         x => { eprintln!("unknown subcommand {x}"); std::process::exit(2); }
     }
 }
